@@ -177,6 +177,27 @@ pub fn observe(f: &AsepriteFile, images: bool) -> Vec<String> {
             }
         }
     }
+    // the optional utilities are observations of the sprite too (C16/C18): the palette mapper must not depend on
+    // anything but the palette contents (e.g. not on a per-instance hash seed when colours occur more than once)
+    #[cfg(feature = "utils")]
+    if let Some(pal) = f.palette() {
+        use crate::util::{to_indexed_image, MappingOptions, PaletteMapper};
+        let mapper = PaletteMapper::new(pal, MappingOptions { failure: 255, transparent: Some(254) });
+        let mut s = String::new();
+        let mut idx: Vec<u32> = (0..300).filter(|i| pal.color(*i).is_some()).collect();
+        idx.truncate(300);
+        for i in idx {
+            let c = pal.color(i).unwrap();
+            s.push_str(&format!("{},", mapper.lookup(c.red(), c.green(), c.blue(), 255)));
+        }
+        o.push(format!("palette-mapper lookups of every entry colour: {}", s));
+        if images && f.num_frames() > 0 {
+            let (dim, data) = to_indexed_image(f.frame(0).image(), &mapper);
+            let mut h = std::collections::hash_map::DefaultHasher::new();
+            std::hash::Hash::hash(&data, &mut h);
+            o.push(format!("to_indexed_image(frame 0) {:?} {:x}", dim, std::hash::Hasher::finish(&h)));
+        }
+    }
     o
 }
 
